@@ -23,6 +23,12 @@
 (* environment model: the status words a child with a given behaviour      *)
 (* produces (by the default disposition of the signal it raises); with     *)
 (* stubbed fork/waitpid there is no child and every outcome is possible.   *)
+(* A behaviour has two independent parts: what the test itself does (act,  *)
+(* arg: pass, fail a check, exit, raise a signal, stop) and `rep', the     *)
+(* number of failures that installed plugins report about the test in      *)
+(* their pre / post actions (leak report, unmet expectations, ...: added   *)
+(* to the result directly, while the test's own checks may all pass).      *)
+(* A child that reaches its end has failed when EITHER recorded something. *)
 (* Ghost `ev' lists the failure-worthy events of the current test.         *)
 (***************************************************************************)
 EXTENDS Naturals, Integers, Sequences, FiniteSets, TLC
@@ -35,7 +41,7 @@ CONSTANTS RetryBound,   \* EINTR results tolerated per test before giving up (me
           ExitCodes,    \* exit statuses the environment may report (subset of 0..255)
           Signals,      \* signal numbers (subset of 1..31, or up to 64 with real-time signals)
           MaxStops,     \* stops per child the environment produces (model bound; a child that stops forever never ends)
-          Behaviours    \* child behaviours used for generation / model checking (records [act, arg])
+          Behaviours    \* child behaviours used for generation / model checking (records [act, arg, rep])
 
 \* default dispositions (Linux, signal(7))
 IgnSignals  == {17, 18, 23, 28}                 \* SIGCHLD SIGCONT SIGURG SIGWINCH: raising them changes nothing
@@ -52,7 +58,7 @@ VARIABLES pc,       \* "idle" | "next" | "fork" | "wait" | "end" | "done" ("done
           ign,      \* tests of this run that were only counted as ignored
           n,        \* tests in the run
           ti,       \* number of the test being run
-          beh,      \* environment: what the child of this test will do ([act, arg]; act "any" when fork/waitpid are stubs)
+          beh,      \* environment: what the child of this test will do ([act, arg, rep]; act "any" when fork/waitpid are stubs)
           retries,  \* EINTR results seen for this test
           stops,    \* stops seen for this test
           waits,    \* waitpid calls made for this test
@@ -78,21 +84,26 @@ Raise(s, after, t) ==
     ELSE IF s \in IgnSignals \/ s \notin 1..31 THEN { after }
     ELSE IF s \in TtyStops /\ ~t THEN { after }
     ELSE { <<Stopped(s)>> \o after }
-\* the sequences of status words a child with behaviour b produces.  The child's own exit status is 1 when the
-\* test recorded a failure in the child and 0 otherwise; exit(c) reports c modulo 256.
+\* failures recorded in the process that executes the test, if it lives to the end of the test: the failed check of the
+\* test itself (one: a failed check ends the phase) and what the plugins' pre / post actions report
+OwnFailures(b) == IF b.act \in {"fail", "signal-then-fail"} THEN 1 ELSE 0
+Recorded(b) == OwnFailures(b) + b.rep
+\* the child's own verdict, when it comes to its end: exit status 1 when ANY failure was recorded in the child while the test
+\* ran - by a check of the test or by a plugin action about the test - and 0 otherwise
+Verdict(b) == <<Exited(IF Recorded(b) > 0 THEN 1 ELSE 0)>>
+\* the sequences of status words a child with behaviour b produces; exit(c) ends the child there and reports c modulo 256
+\* (whatever was recorded before).
 Plans(b, t) ==
     CASE b.act = "any"    -> { AnyPlan }
-      [] b.act = "pass"   -> { <<Exited(0)>> }
-      [] b.act = "fail"   -> { <<Exited(1)>> }
+      [] b.act \in {"pass", "fail"} -> { Verdict(b) }
       [] b.act = "exit"   -> { <<Exited(b.arg % 256)>> }
-      [] b.act = "signal" -> Raise(b.arg, <<Exited(0)>>, t)
-      [] b.act = "signal-then-fail" -> Raise(b.arg, <<Exited(1)>>, t)
-      [] b.act = "stop-twice" -> { <<Stopped(19), Stopped(19), Exited(0)>> }
+      [] b.act \in {"signal", "signal-then-fail"} -> Raise(b.arg, Verdict(b), t)
+      [] b.act = "stop-twice" -> { <<Stopped(19), Stopped(19)>> \o Verdict(b) }
 
 Allowed(o) == plan = AnyPlan \/ (plan # <<>> /\ Head(plan) = o)
 Consume == IF plan = AnyPlan THEN AnyPlan ELSE Tail(plan)
 
-NoBeh == [act |-> "any", arg |-> 0]
+NoBeh == [act |-> "any", arg |-> 0, rep |-> 0]
 Init == /\ pc = "idle" /\ sep = FALSE /\ ri = FALSE /\ tests = <<>> /\ runs = 0 /\ where = "none" /\ ign = 0
         /\ n = 0 /\ ti = 0 /\ beh = NoBeh /\ retries = 0 /\ stops = 0 /\ waits = 0 /\ conts = 0
         /\ tfail = <<>> /\ ev = <<>> /\ total = 0 /\ ran = 0 /\ plan = AnyPlan /\ tty = TRUE
@@ -121,7 +132,8 @@ Begin(t) == /\ AtRest /\ tests # <<>> /\ runs < MaxRuns /\ pc' = "next" /\ runs'
 
 \* the next test of the list.  An ignored test that is not to be run is only counted.  Otherwise runOneTest: countRun, then
 \* the platform runner when the run is in separate-process mode; without that option the test runs in the runner itself
-\* (outside C11; only bodies that pass or fail a check are considered there).
+\* (outside C11; only bodies that pass or fail a check are considered there, with or without failures reported by plugins:
+\* every one of them is recorded).
 StartTest(b) ==
     /\ pc = "next" /\ ti < n /\ ti' = ti + 1 /\ beh' = b
     /\ retries' = 0 /\ stops' = 0 /\ waits' = 0 /\ conts' = 0
@@ -132,8 +144,8 @@ StartTest(b) ==
                /\ pc' = "fork" /\ ran' = ran + 1 /\ tfail' = <<>> /\ ev' = <<>> /\ UNCHANGED <<ign, plan>>
          [] where' = "runner" ->
                /\ b.act \in {"pass", "fail"} /\ pc' = "end" /\ ran' = ran + 1 /\ plan' = <<>> /\ UNCHANGED ign
-               /\ tfail' = (IF b.act = "fail" THEN <<F("check", 0)>> ELSE <<>>)
-               /\ ev' = (IF b.act = "fail" THEN <<F("check", 0)>> ELSE <<>>)
+               /\ tfail' = [i \in 1..Recorded(b) |-> F("check", 0)]
+               /\ ev' = [i \in 1..Recorded(b) |-> F("check", 0)]
     /\ UNCHANGED <<sep, ri, tests, runs, n, total, tty>>
 
 \* fork() = -1: one failure, the test is over (nothing to wait for)
@@ -223,6 +235,10 @@ InRun == pc \in {"next", "fork", "wait", "end"}
 Contained == /\ (InRun /\ sep /\ ti > 0) => where \in {"child", "none"}
              /\ (pc \in {"fork", "wait"}) => (sep /\ where = "child")
              /\ (InRun /\ ti > 0 /\ pc # "next") => where \in Places(tests[ti])
+\* a failure recorded in the child fails the test in the parent, whoever recorded it (a check of the test, a plugin's pre or
+\* post action): when the parent has seen the end of a child that came to its own end with something recorded, the test has failed
+ChildCameToItsEnd(b) == b.act \in {"pass", "fail", "stop-twice"} \/ (b.act \in {"signal", "signal-then-fail"} /\ b.arg \notin TermSignals)
+ChildFailuresCount == (pc = "end" /\ where = "child" /\ plan = <<>> /\ ChildCameToItsEnd(beh) /\ Recorded(beh) > 0) => tfail # <<>>
 \* every stop is answered by exactly one SIGCONT
 StopsResumed == conts = stops
 \* bounded waiting: the waitpid calls of one test are the EINTR results (bounded), the stops, and one last call
@@ -242,5 +258,5 @@ EveryRunEnds == InRun ~> (pc = "done")
 TypeOK == /\ pc \in {"idle", "next", "fork", "wait", "end", "done"} /\ n \in 0..MaxTests /\ ti \in 0..n
           /\ sep \in BOOLEAN /\ ri \in BOOLEAN /\ Len(tests) <= MaxTests /\ \A i \in 1..Len(tests) : tests[i] \in {"plain", "ignored"}
           /\ runs \in 0..MaxRuns /\ where \in {"none", "child", "runner"} /\ ign \in 0..n
-          /\ retries \in 0..RetryBound + 1 /\ stops \in 0..MaxStops /\ tty \in BOOLEAN
+          /\ retries \in 0..RetryBound + 1 /\ stops \in 0..MaxStops /\ tty \in BOOLEAN /\ beh.rep \in Nat
 =============================================================================
